@@ -271,29 +271,34 @@ def run(ctx, report: Report) -> None:
 
     # ---- R4 ---------------------------------------------------------------------------------------------------
     r4 = report.rule('C02-R4', '-of-type equality = name AND namespace; every SelectorNth field is read', floor=7)
-    tmod, tfn = src.func('css_match.CSSMatch.match_nth_tag_type')
-    params = [a.arg for a in tfn.args.args if a.arg != 'self']
-    if len(params) != 2:
-        raise AnalysisError('match_nth_tag_type: expected two element parameters')
-    # atoms: <accessor>(p1) == <accessor>(p2) for both parameters, whatever the spelling (==, !=, early return)
-    atoms = {}
-    for c in ast.walk(tfn):
-        if isinstance(c, ast.Compare) and len(c.ops) == 1 and isinstance(c.ops[0], (ast.Eq, ast.NotEq)) \
-                and isinstance(c.left, ast.Call) and isinstance(c.comparators[0], ast.Call):
-            l, r = c.left, c.comparators[0]
-            if call_name(l) == call_name(r) and len(l.args) == 1 and len(r.args) == 1 \
-                    and {unparse(l.args[0]), unparse(r.args[0])} == set(params):
-                atoms[call_name(l).split('.')[-1]] = boolpaths.norm_atom(c)[0]
-    r4.instance({'function': 'match_nth_tag_type', 'equalities': atoms}, key='tag-type')
-    for need, what in (('get_tag', 'name'), ('get_tag_ns', 'namespace')):
-        bad = None
-        if need in atoms:
-            bad = boolpaths.necessary_for_truthy(tfn, atoms[need])
-        r4.obligation(need in atoms and not bad)
-        if need not in atoms or bad:
-            r4.violation(f'css_match.CSSMatch.match_nth_tag_type {what}', tmod.where(bad[0] if bad and bad[0] is not None else tfn),
-                         f'match_nth_tag_type can return true although the {what} of element and sibling differ: '
-                         f'same-named siblings of another {what} are counted as one type')
+    from .sem import same_type_table
+    same_type_table(ctx, r4)
+    # the siblings that are counted are the children of the real parent, whatever the document kind
+    from .sem import iframe_policy
+    from ..interp import Obj as _Obj
+    from ..tables import el_obj
+    iframe_policy(ctx, r4, 'css_match.CSSMatch.match_nth',
+                  lambda: [el_obj('e'), (_Obj(_name='SelectorNth', a=1, n=False, b=1, of_type=False, last=False,
+                                              selectors=_Obj(_name='SelectorList', __bool__=False, __len__=0, __iter__=[])),)],
+                  lambda html, restrict: False,
+                  'An+B counts the element among ALL element children of its parent (an iframe element is an ordinary parent)')
+    # plain :nth-child(An+B) counts every element sibling: its implicit "of S" is the namespace-wildcard universal selector
+    dflt = None
+    for st in src.mod('css_parser').tree.body:
+        if isinstance(st, ast.Assign) and isinstance(st.targets[0], ast.Name) and st.targets[0].id == 'CSS_NTH_OF_S_DEFAULT':
+            for c in ast.walk(st.value):
+                if isinstance(c, ast.Call) and src.resolve_class_ref(src.mod('css_parser'), c.func) == 'css_parser.CSSParser' and c.args:
+                    dflt = inv.folder.try_ev('css_parser', c.args[0], default=None)
+    if not isinstance(dflt, str):
+        raise AnalysisError('CSS_NTH_OF_S_DEFAULT: selector text not found (anchor vanished)')
+    import re as _re
+    norm = _re.sub(r'/\*.*?\*/|\s+', '', dflt, flags=_re.S)
+    r4.instance({'CSS_NTH_OF_S_DEFAULT': dflt, 'is_namespace_wildcard_universal': norm == '*|*'}, key='of-s-default')
+    r4.obligation(norm == '*|*')
+    if norm != '*|*':
+        r4.violation('css_parser.CSS_NTH_OF_S_DEFAULT', 'soupsieve/css_parser.py (CSS_NTH_OF_S_DEFAULT)',
+                     f'the implicit "of S" of :nth-child()/:nth-last-child() is `{dflt}`; it must be `*|*`: anything else filters the '
+                     f'siblings that are counted (`*` alone is subject to the default namespace of the caller\'s map)')
     # fields of SelectorNth read through the loop variable of match_nth
     tm, tcls = src.cls('css_types.SelectorNth')
     slots = None
